@@ -6,7 +6,7 @@ from symex.engine import PathCut
 
 EXPLANATION = ("A real Directory (+DirectoryComputation) and real Discovery/DiscoveryComputation objects of an observer agent and "
                "an actor agent are wired through the bench; a solver-chosen history of operations (the actor registers / "
-               "unregisters a computation and its replica, the observer subscribes / unsubscribes to the computation, its "
+               "unregisters itself, a computation and its replica, the observer subscribes / unsubscribes to the computation, its "
                "replicas and the actor agent) is interleaved with message deliveries in every per-channel-FIFO order; after the "
                "final drain the observer's view must equal the directory's for every item it is still subscribed to, and its "
                "callbacks must have fired when the view changed. Discrete exploration (no numeric symbolic input).")
@@ -15,12 +15,13 @@ ASSUMPTIONS = [
     "one observer (a1), one actor (a2), one computation (c1) and its replica; agents pre-registered on the directory before the history starts",
     "operations that the API rejects locally (e.g. unregistering an unknown computation) are skipped",
 ]
-BOUNDS = {"quick": "histories of <= 4 operations among 10 kinds, all interleavings with deliveries",
+BOUNDS = {"quick": "histories of <= 4 operations among 12 kinds (incl. the actor agent leaving and coming back), all interleavings with deliveries",
           "thorough": "histories of <= 5 operations (8.2 million interleaved paths)"}
 OUTSIDE = "more agents / computations, agent removal with hosted computations, subscribe_all_agents"
 CAP_S = {"quick": 900, "thorough": 7200}
 
-OPS = ["sub_comp", "unsub_comp", "sub_rep", "unsub_rep", "sub_agent", "unsub_agent", "reg_comp", "unreg_comp", "reg_rep", "unreg_rep"]
+OPS = ["sub_comp", "unsub_comp", "sub_rep", "unsub_rep", "sub_agent", "unsub_agent", "reg_comp", "unreg_comp", "reg_rep", "unreg_rep",
+       "unreg_agent", "reg_agent"]
 
 
 def jobs(tier):
@@ -52,6 +53,7 @@ def run(eng, p):
     hist = []
     n = eng.choose(p["length"], "length") + 1
     done_ops = 0
+    agent_up = [True]
 
     def view(d, kind):
         try:
@@ -83,7 +85,7 @@ def run(eng, p):
                 raise PathCut()
             d1.unsubscribe_agent("a2", cbs["agent"]); subscribed["agent"] = False
         elif op == "reg_comp":
-            if view(d2, "comp") is not None:
+            if not agent_up[0] or view(d2, "comp") is not None:
                 raise PathCut()
             d2.register_computation("c1", "a2", "addr_a2")
         elif op == "unreg_comp":
@@ -91,13 +93,24 @@ def run(eng, p):
                 raise PathCut()
             d2.unregister_computation("c1", "a2")
         elif op == "reg_rep":
-            if view(d2, "comp") is None or "a2" in (view(d2, "rep") or []):
+            if not agent_up[0] or view(d2, "comp") is None or "a2" in (view(d2, "rep") or []):
                 raise PathCut()
             d2.register_replica("c1", "a2")
         elif op == "unreg_rep":
             if "a2" not in (view(d2, "rep") or []):
                 raise PathCut()
             d2.unregister_replica("c1", "a2")
+        elif op == "unreg_agent":
+            # the actor agent leaves (only possible once it hosts no computation any more)
+            if not agent_up[0] or view(d2, "comp") is not None:
+                raise PathCut()
+            agent_up[0] = False
+            d2.unregister_agent("a2")
+        elif op == "reg_agent":
+            if agent_up[0]:
+                raise PathCut()
+            agent_up[0] = True
+            d2.register_agent("a2", "addr_a2_bis")
     try:
         while True:
             en = bench.enabled()
